@@ -793,6 +793,11 @@ func (w *world) start() {
 		}
 	}
 	w.s = inproc.New(cfg)
+	if c.HlsRefuse > 0 {
+		if err := useRefusingAuth(w.s.SM, c.HlsRefuse); err != nil {
+			harnessFail("cannot install the refusing authentication: %v", err)
+		}
+	}
 	if w.notify != nil {
 		// lal's own notify path (HttpNotify: queue + posting goroutine) instead of the harness recorder
 		if err := useLalHttpNotify(w.s.SM); err != nil {
